@@ -2,7 +2,8 @@
    agree.  Only statements, each closed by [exact]; the proofs are in Proofs/Paradigm*.v. *)
 From Eino Require Import Base.Util Model.Paradigm Model.StreamOps Model.ParadigmProg
   Model.ParadigmSpec Model.ParadigmHandlers Model.C04NilEnd Proofs.Paradigm Proofs.ParadigmOps Proofs.ParadigmFieldMap
-  Proofs.ParadigmProg Proofs.ParadigmSpec Proofs.ParadigmPaths Proofs.C04NilEnd.
+  Proofs.ParadigmProg Proofs.ParadigmSpec Proofs.ParadigmPaths Proofs.C04NilEnd
+  Model.C04KeyedPass Proofs.C04KeyedPass.
 
 (* ------------------------------------------------------------------ node level *)
 
@@ -407,6 +408,25 @@ Example agree_nonvacuous_nested :
   /\ vsconcatR (g_transform seq_mrg (compile_sprog nested_prog) (map Val [VS "a"%string; VS "b"%string]))
      = g_invoke (compile_sprog nested_prog) (VS "ab"%string).
 Proof. exact nested_prog_in_domain. Qed.
+
+(* non-vacuity with passthrough nodes that carry a key (round 6): AddPassthroughNode(WithInputKey) picks a
+   string out of the caller's map chunks (one chunk lacks the key) and hands it to a lambda string -> map,
+   AddPassthroughNode(WithOutputKey) nests that map, a second keyed passthrough node picks it again; in the
+   model a wrapper around the identity (SSub w SId).  The graph satisfies the hypotheses of
+   harness_graphs_agree; corpus/C04/pass_inkey_typed_from_successor.json is this graph and these chunks. *)
+Example agree_nonvacuous_keyed_passthrough :
+  sprog_wf keyed_pass_prog = true
+  /\ dom_ok (compile_sprog keyed_pass_prog) keyed_pass_input = true
+  /\ g_invoke (compile_sprog keyed_pass_prog) keyed_pass_input = Ok (VS "n5{af=n2<hello;ag=hello>;}"%string)
+  /\ vsconcatR (g_transform seq_mrg (compile_sprog keyed_pass_prog) (map Val keyed_pass_chunks))
+     = g_invoke (compile_sprog keyed_pass_prog) keyed_pass_input
+  /\ g_collect seq_mrg (compile_sprog keyed_pass_prog) (map Val keyed_pass_chunks)
+     = g_invoke (compile_sprog keyed_pass_prog) keyed_pass_input.
+Proof. exact keyed_pass_prog_in_domain. Qed.
+
+Example keyed_passthrough_input_is_concat :
+  vsconcat (map Val keyed_pass_chunks) = Ok keyed_pass_input.
+Proof. exact keyed_pass_input_is_concat. Qed.
 
 (* non-vacuity with field mappings over nested maps: MapFields from a field that holds a map
    (fragments in two chunks), ToField of a whole map, FromField of a nested map *)
